@@ -132,12 +132,16 @@ def refusal (has : G → Bool) : List T → Option (T × G)
     | some g => some (t, g)
     | none => refusal has ts
 
-/-- an accepted program: files read, declarations handed to the generators -/
+/-- a program *as the front end resolves it under one configuration* (root file, search path): files read, declarations
+    handed to the generators. `accepted = false`: the front end refuses it (unresolvable `@import`, unknown type, …) —
+    `parse` raises after the targets were configured and the files were read, and returns no generate context.
+    Which files an `@import` resolves to is the front end's business (C16); here it is part of the program. -/
 structure Prog where
   id : String                -- digest of all input files
   reads : List Path          -- `read_idl` calls in order (root first)
   exts : List Path           -- `@extern` files
   defs : List Decl
+  accepted : Bool := true
 deriving Repr, Inhabited
 
 /-- everything a rendered file's bytes are computed from -/
@@ -175,6 +179,7 @@ deriving DecidableEq, Repr
 
 inductive Outcome
   | parsed
+  | rejected                                          -- `parse` raised the front end's diagnostics: no generate context
   | wrote (files : List (Path × ContentId))
   | missingConfig (files : List (Path × ContentId))   -- ConfigurationException (after the earlier generators of the target ran)
   | crash (files : List (Path × ContentId))           -- AttributeError: declaration without marshalling object
@@ -250,9 +255,14 @@ def step (w : World) (s : ApiState) : Call → ApiState × Outcome
     match w.cfgs[i]?, w.progs[j]? with
     | some c, some p =>
       if c.wellConfigured then
-        ({ genCfg := fun g => if c.generators.contains g then c.gens g else s.genCfg g,
-           frw := s.frw.run (parseOps c p),
-           results := s.results ++ [ctxOf c p] }, .parsed)
+        if p.accepted then
+          ({ genCfg := fun g => if c.generators.contains g then c.gens g else s.genCfg g,
+             frw := s.frw.run (parseOps c p),
+             results := s.results ++ [ctxOf c p] }, .parsed)
+        else
+          -- the targets are configured and the files read before the diagnostics are raised; nothing is returned
+          ({ s with genCfg := fun g => if c.generators.contains g then c.gens g else s.genCfg g,
+                    frw := s.frw.run (parseOps c p) }, .rejected)
       else (s, .badCall)
     | _, _ => (s, .badCall)
   | .generate k t =>
@@ -290,5 +300,13 @@ abbrev FMap (κ : Type) := Path → Option κ
 
 def applyWrites {κ : Type} (m : FMap κ) (ws : List (Path × κ)) : FMap κ :=
   ws.foldl (fun m w => fun p => if p = w.1 then some w.2 else m p) m
+
+/-- a writer that leaves a file alone when what is on disk "looks like" the new content under a fingerprint `fp`
+    (its size, its modification time, …) — **not** what `FileReaderWriter._write` does; kept for the counterexample
+    `fingerprint_skip_keeps_stale_content` (Props/C10) -/
+def applyWritesSkipping {κ φ : Type} [DecidableEq φ] (fp : κ → φ) (m : FMap κ) (ws : List (Path × κ)) : FMap κ :=
+  ws.foldl (fun m w => fun p => if p = w.1 then (match m p with
+    | some old => if fp old = fp w.2 then some old else some w.2
+    | none => some w.2) else m p) m
 
 end Pydjinni.SysC
